@@ -139,6 +139,7 @@ impl Property for C10 {
         for (n, op) in c.ops.iter().enumerate() {
             let desc = format!("op #{} {:x?}", n, op);
             let before = model.clone();
+            let mut resync = false;
             let fail = |out: &mut CaseOut, sig: &str, msg: String| {
                 out.verdict = Verdict::Fail { sig: format!("C10|{}", sig), msg };
                 out.nontrivial = true;
@@ -236,10 +237,26 @@ impl Property for C10 {
                     let target = model[*area % model.len()].clone();
                     let addr = target.start.wrapping_add(*start_delta);
                     if model.iter().filter(|a| a.start == addr).count() > 1 {
-                        classes.push("ambiguous-duplicate-start-skipped");
-                        continue;
+                        // an empty and a non-empty area share this start: which one a resize means is not stated, so the
+                        // call runs without a verdict of its own, the model adopts the outcome, and the invariants below
+                        // (pairwise disjointness, length = data length) judge it
+                        classes.push("ambiguous-duplicate-start");
+                        if *new_size <= 0x40_0000 {
+                            let r = api(|| ax.mem_resize_section(addr, *new_size));
+                            if let Api::Panic(p) = &r {
+                                fail(&mut out, &format!("resize|{}", p.signature()), format!("{} crashed: {}", desc, r.short()));
+                                return out;
+                            }
+                            resync = true;
+                        } else {
+                            continue;
+                        }
                     }
                     let exists = *start_delta == 0 || model.iter().any(|a| a.start == addr);
+                    if resync {
+                        // fallthrough to the invariant block with a refreshed model
+                    } else {
+
                     if *new_size > 0x40_0000 && *new_size < (1 << 39) {
                         continue; // keep allocations small; huge sizes stay in (they must be refused or collide)
                     }
@@ -281,6 +298,7 @@ impl Property for C10 {
                         let m = model.iter_mut().find(|a| a.start == addr).unwrap();
                         m.data.resize(*new_size as usize, 0); // keeps the common prefix, zero-fills growth
                     }
+                    }
                 }
                 Op::Prot { area, start_delta, prot } => {
                     let target = model[*area % model.len()].clone();
@@ -310,6 +328,9 @@ impl Property for C10 {
             }
             // invariant after every operation: the area list equals the model and is pairwise disjoint
             let areas = ax.verif_areas();
+            if resync {
+                model = areas.iter().map(|a| MA { start: a.start, data: a.data.clone(), prot: a.access }).collect();
+            }
             for (i, a) in areas.iter().enumerate() {
                 if a.length != a.data.len() as u64 {
                     fail(&mut out, "invariant|length-field-differs-from-data", format!("after {}: area {:#x} length {} but {} bytes", desc, a.start, a.length, a.data.len()));
